@@ -268,6 +268,41 @@ example : evaluate [.expr (.print (.lit 4)), .aug "g" (.lit 1)] [("g", .int 7)]
     = .ok (some ⟨.int 8, [("g", .int 8), ("__result__", .int 8)], [.int 4]⟩) := by rfl
 example : evaluate [.expr (.print (.lit 4)), .expr (.var "zz")] [] = .error .nameError := by rfl
 
+/-! ### Head and tail together on the statement language -/
+
+/-- A program of the statement language that assigns (plain, chained or augmented) without ASSIGN, or
+prints (a call) without CALL — under the EFFECTIVE permission, whatever combination of explicit
+argument and enclosing scopes produced it — is refused, and the refusal is an outcome that carries no
+state: nothing of the program was executed. -/
+theorem C19_full_refuses (explicit : Option PermSet) (slot : Slot) (prog : List Stmt) (ctx : Env) (ps : PermSet)
+    (heff : effective effectiveRule explicit slot = some ps)
+    (h : (∃ st ∈ prog, st.assigns = true ∧ granted ps .assign = false) ∨
+         (∃ st ∈ prog, st.hasCall = true ∧ granted ps .call = false)) :
+    ∃ l, evaluateFull explicit slot prog ctx = .rejected l := by
+  have key : ∃ m ∈ nodes (moduleOf prog), ∃ p, required m.kind = some p ∧ granted ps p = false := by
+    rcases h with ⟨st, hst, ha, hg⟩ | ⟨st, hst, hc, hg⟩
+    · obtain ⟨l', hl'⟩ := mem_moduleOf prog st hst
+      obtain ⟨m, hm, hk⟩ := Stmt.assign_node l' st ha
+      refine ⟨m, hl' m hm, .assign, ?_, hg⟩
+      rcases hk with hk | hk <;> rw [hk] <;> rfl
+    · obtain ⟨l', hl'⟩ := mem_moduleOf prog st hst
+      obtain ⟨m, hm, hk⟩ := Stmt.call_node l' st hc
+      refine ⟨m, hl' m hm, .call, ?_, hg⟩
+      rw [hk]; rfl
+  obtain ⟨l, hl⟩ := C19_before_exec explicit slot (moduleOf prog) ps heff key
+  exact ⟨l, by unfold evaluateFull; rw [hl]⟩
+
+/-- When the head lets the program through, what runs is the tail — which agrees with plain
+execution (`C19_tail_plain`). -/
+theorem C19_full_runs_plain (explicit : Option PermSet) (slot : Slot) (body : List Stmt) (last : Stmt) (ctx : Env)
+    (h : evaluateHead gate effectiveRule explicit slot (moduleOf (body ++ [last])) = .runs) :
+    ∃ r, evaluateFull explicit slot (body ++ [last]) ctx = .ran r ∧
+      Agree r (execAll (body ++ [last]) ⟨ctx, []⟩) := by
+  refine ⟨evaluate (body ++ [last]) ctx, by unfold evaluateFull; rw [h], C19_tail_plain body last ctx⟩
+
+example : ∃ l, evaluateFull (some [Perm.assign]) none [.assign ["a"] (.lit 1), .expr (.print (.var "a"))] [] = .rejected l :=
+  C19_full_refuses _ _ _ _ [Perm.assign] rfl (Or.inr ⟨.expr (.print (.var "a")), by simp, rfl, by decide⟩)
+
 end Tail
 
 end Pg.C19
